@@ -11,6 +11,12 @@
 (* instantiated on this call's request and validators, not copied).                                    *)
 (* TLC checks, for every call of the universe: Verdict(line) = "ok" (ImplMeetsContract), the drift     *)
 (* clauses agree with the model (ImplNoDrift), and the internal laws Law*.                             *)
+(* Configurations: MCQ_<family> (quick) / MCT_<family> (Deep = TRUE) check every invariant and print    *)
+(* one row per call (INVARIANT Export) for the replay on the real code; families names / cache /      *)
+(* errors / sdm.  MCV_<defect>: a hand-broken variant on a small universe (names_small / cache_small / *)
+(* errors_small / sdm) must violate ImplMeetsContract with the clause listed in harness/props/x09.py;  *)
+(* MCS_small: the same small universes without a defect must pass; MCL_<law>: a broken variant must    *)
+(* violate the internal law.                                                                           *)
 (* Defects (hand-broken variants, each must violate ImplMeetsContract):                                *)
 (*   star_raw        filename* is not percent-encoded                                                  *)
 (*   att_ignored     as_attachment is ignored (always inline)                                          *)
